@@ -87,8 +87,11 @@ def main():
                         break
                     ivs.append([dt_json(a), dt_json(b), str(k), list(c)])
                 rec["intervals"] = ivs
-                end = t + datetime.timedelta(days=3)
-                rec["intervals_bounded"] = [[dt_json(a), dt_json(b), str(k), list(c)] for a, b, k, c in o.intervals(t, end)][:12]
+                if wall.year == 9999 and wall.month == 12 and wall.day > 28:
+                    rec["intervals_bounded"] = []      # the end of the window cannot be written as a Python datetime
+                else:
+                    end = t + datetime.timedelta(days=3)
+                    rec["intervals_bounded"] = [[dt_json(a), dt_json(b), str(k), list(c)] for a, b, k, c in o.intervals(t, end)][:12]
             except BaseException as e:  # noqa: BLE001
                 rec["exc"] = exc_name(e)
                 rec["exc_text"] = str(e)[:200]
